@@ -1,8 +1,23 @@
 mod alloc_track;
+mod c01;
+mod c02;
+mod c07;
+mod c08;
+mod c09;
+mod c10;
+mod c11;
+mod c13;
+mod c14;
+mod c15;
+mod c16;
+mod c17;
+mod c18;
+mod c19;
 mod c03;
 mod c04;
 mod c05;
 mod c06;
+mod c12;
 mod c20;
 mod smoke;
 mod typed;
@@ -26,10 +41,25 @@ fn main() {
     vlib::runner::install_panic_hook();
     let out = match id.as_str() {
         "smoke" => std::process::exit(smoke::run(&ctx)),
+        "C01" => c01::run(&ctx),
+        "C02" => c02::run(&ctx),
+        "C07" => c07::run(&ctx),
+        "C08" => c08::run(&ctx),
+        "C09" => c09::run(&ctx),
+        "C10" => c10::run(&ctx),
+        "C11" => c11::run(&ctx),
+        "C13" => c13::run(&ctx),
+        "C14" => c14::run(&ctx),
+        "C15" => c15::run(&ctx),
+        "C16" => c16::run(&ctx),
+        "C17" => c17::run(&ctx),
+        "C18" => c18::run(&ctx),
+        "C19" => c19::run(&ctx),
         "C03" => c03::run(&ctx),
         "C04" => c04::run(&ctx),
         "C05" => c05::run(&ctx),
         "C06" => c06::run(&ctx),
+        "C12" => c12::run(&ctx),
         "C20" => c20::run(&ctx),
         _ => {
             eprintln!("MACHINERY: unknown check {id}");
